@@ -506,10 +506,7 @@ void NifFile::SortGraph(NiNode* root, SortState& sortState) {
 	std::vector<uint32_t> childIndices;
 	root->childRefs.GetIndices(childIndices);
 
-	if (childIndices.empty())
-		return;
-
-	bool reorderChildRefs = !root->HasType<BSOrderedNode>();
+	bool reorderChildRefs = !childIndices.empty() && !root->HasType<BSOrderedNode>();
 	if (reorderChildRefs) {
 		std::vector<uint32_t> newChildIndices;
 		newChildIndices.reserve(childIndices.size());
